@@ -256,11 +256,11 @@ class Ctx:
                 self.known_hits.append(v["key"])
                 continue
             nviol += 1
-            if nviol <= 8:
+            if nviol <= 20:
                 path = self.write_replay(v)
                 out_lines.append("VIOLATION property=%s replay=%s" % (self.prop, path))
-        if nviol > 8:
-            self.notes.append("%d further distinct failing inputs not written as replays" % (nviol - 8))
+        if nviol > 20:
+            self.notes.append("%d further distinct failing inputs not written as replays" % (nviol - 20))
         # 2. broken obligations with no concrete failing input
         broken = self.broken()
         concrete = any(v["kind"] == "failing-input" and v["key"] not in known_keys for v in self.violations)
